@@ -300,7 +300,7 @@ def r_tagself(db, rep):
             rep.visit(f)
             for lv, w in written_lvalues(f):
                 p = access_path(f, lv)
-                if p is None or p[-1] != "type" or len(p) != 2:
+                if p is None or p[-1] != "type" or not (len(p) == 2 and p[0] == "this" or len(p) == 3 and p[0] == "local"):
                     continue
                 t = f.type(lv)
                 rep.ob()
